@@ -9,12 +9,17 @@ from fractions import Fraction
 
 import networkx as nx
 
+import gcmpy.message_passing.equations.automated_equation as _ae_module
 from gcmpy.message_passing.equations.automated_equation import AutomatedEquation
+
+from .. import setseam
 
 from ..engine import describe_exc
 from ..models.percolation import expectation
 from ..operands import Exact, Poly, OpCounter
 from ..simrandom import SimFault
+
+setseam.install(_ae_module)     # iteration order of the evaluator's hash sets is chosen by the scheduler
 
 ID = "C15"
 RUNS = {"quick": 640, "thorough": 20000, "thorough_s": 400}
@@ -231,7 +236,7 @@ def gen_overlap(prng, tier, index):
         evals.append(ev)
     mode = prng.choice(("threads", "threads", "nested"))
     sc = {"variant": "faults", "kind": "overlap", "mode": mode, "motifs": motifs, "evals": evals, "faults": [],
-          "warm": prng.random() < 0.5,
+          "warm": prng.random() < 0.5, "set_order": prng.choice(("natural", "natural", "reversed", "shuffled")),
           "policy": prng.choice(({}, {"int": "sticky"}, {"int": "mix", "p": 0.3}, {"int": "mix", "p": 0.7}, {"int": "max"}))}
     if mode == "nested":
         sc["at"] = prng.randrange(0, 60)
@@ -340,7 +345,8 @@ def generate(prng, tier, index):
         ev = {"m": mi, "focal": focal}
         ev.update(gen_operands(prng, verts, prng.choice(kinds)))
         evals.append(ev)
-    sc = {"variant": variant, "motifs": motifs, "evals": evals, "faults": []}
+    sc = {"variant": variant, "motifs": motifs, "evals": evals, "faults": [],
+          "set_order": prng.choice(("natural", "natural", "reversed", "rotated", "shuffled"))}
     if variant == "faults":
         for _ in range(prng.randrange(1, 3)):
             at = prng.randrange(len(evals))
@@ -399,6 +405,15 @@ def show(x):
 
 
 def execute(sc, ctx):
+    mode = sc.get("set_order", "natural")
+    before_it = setseam.ITERATIONS
+    with setseam.ordering(mode, ctx.source("setorder", None)):
+        _execute(sc, ctx)
+    if mode != "natural" and setseam.ITERATIONS > before_it:
+        ctx.fault("set_iteration_order")
+
+
+def _execute(sc, ctx):
     if sc.get("kind") == "overlap":
         return execute_overlap(sc, ctx)
     P = "C15"
